@@ -1937,6 +1937,35 @@ class Body:
             return self.must_pass_edges([tgt], through, (), targets)
         return self.must_pass_edges([tgt], through, (), targets, env0=((("D", dk[0], dk[1]), ("is", idx)),))
 
+    def reachable_assuming(self, switch_block, variant, avoid=(), cap=60000):
+        """Blocks that can run after `switch_block` has found its value to be `variant` - also through later matches on the same unchanged value,
+        which follow the same variant (an or-pattern arm `A | B | C => helper(marker)` whose helper matches on the marker again)."""
+        si = self.switch_info(switch_block)
+        ve = self.variant_edges(switch_block) or {}
+        idx = {nm: k for k, nm in ((si or {}).get("names") or {}).items()}.get(variant)
+        t = self.term(switch_block)
+        p = op_place(t["discr"]) if t.get("k") == "switch" else None
+        dk = self._disc_map().get(p[0]) if p is not None and not p[1] else None
+        tgt = ve.get(variant)
+        if tgt is None:
+            return set()
+        if dk is None or idx is None:
+            return self.reachable_from([tgt], avoid=set(avoid))
+        env0 = ((("D", dk[0], dk[1]), ("is", idx)),)
+        seen, blocks, dq = set(), set(), deque([(tgt, env0)])
+        while dq and cap > 0:
+            cap -= 1
+            b, env = dq.popleft()
+            if (b, env) in seen or b in avoid or self.is_cleanup(b):
+                continue
+            seen.add((b, env))
+            blocks.add(b)
+            for s_, e_ in self._edge_envs(b, env):
+                dq.append((s_, e_))
+        if cap <= 0:
+            return self.reachable_from([tgt], avoid=set(avoid))
+        return blocks
+
     def must_pass_edges(self, start_blocks, through, discharge_edges=(), targets=None, env0=()):
         """Like must_pass, but a path is also discharged by traversing one of discharge_edges
         (pairs (a, s))."""
